@@ -5,6 +5,7 @@ package fees
 
 import (
 	"encoding/binary"
+	"math/bits"
 	"sync"
 
 	"github.com/ava-labs/avalanchego/utils/math"
@@ -224,9 +225,7 @@ func computeNextPriceWindow(
 	if total > target {
 		// If the parent block used more units than its target, the baseFee should increase.
 		delta := total - target
-		x := previousPrice * delta
-		y := x / target
-		baseDelta := y / changeDenom
+		baseDelta := mulDivDiv(previousPrice, delta, target, changeDenom)
 		if baseDelta < 1 {
 			baseDelta = 1
 		}
@@ -239,9 +238,7 @@ func computeNextPriceWindow(
 	} else if total < target {
 		// Otherwise if the parent block used less units than its target, the baseFee should decrease.
 		delta := target - total
-		x := previousPrice * delta
-		y := x / target
-		baseDelta := y / changeDenom
+		baseDelta := mulDivDiv(previousPrice, delta, target, changeDenom)
 		if baseDelta < 1 {
 			baseDelta = 1
 		}
@@ -252,7 +249,12 @@ func computeNextPriceWindow(
 		// that has elapsed between the parent and this block.
 		if since > window.WindowSize {
 			// Note: roll/rollupWindow must be greater than 1 since we've checked that roll > rollupWindow
-			baseDelta *= since / window.WindowSize
+			hi, lo := bits.Mul64(baseDelta, since/window.WindowSize)
+			if hi != 0 {
+				// the decrease exceeds any price
+				lo = consts.MaxUint64
+			}
+			baseDelta = lo
 		}
 		n, under := math.Sub(nextPrice, baseDelta)
 		if under != nil {
@@ -265,6 +267,22 @@ func computeNextPriceWindow(
 		nextPrice = minPrice
 	}
 	return nextPrice, newRollupWindow
+}
+
+// mulDivDiv returns (a*b/c)/d, both divisions rounding down, computed on the full 128-bit
+// product (the product a*b must not be truncated to 64 bits: a wrapped product can turn a
+// large price change into a tiny one). A result that does not fit into 64 bits saturates at
+// MaxUint64. As with plain integer division, c == 0 or d == 0 panics.
+func mulDivDiv(a, b, c, d uint64) uint64 {
+	hi, lo := bits.Mul64(a, b)
+	// (hi:lo)/c = (qhi:qlo)
+	qhi := hi / c
+	qlo, _ := bits.Div64(hi%c, lo, c)
+	if d != 0 && qhi >= d {
+		return consts.MaxUint64
+	}
+	q, _ := bits.Div64(qhi, qlo, d)
+	return q
 }
 
 type Rules interface {
